@@ -16,12 +16,17 @@ C09Contents == ContentCases
 (* capability sets: all subsets of the given universe *)
 C09CapSets(U) == SUBSET U
 
+Lookalikes == {"ns-form", "yang-module", "other-versions", "capability-form"}
 C12Cases ==
-  {[base |-> b, sid |-> s, ns |-> n, shape |-> sh, order |-> o] :
+  {[base |-> b, sid |-> s, ns |-> n, shape |-> sh, order |-> o, extra |-> "none"] :
       b \in SUBSET Versions, s \in SidShapes, n \in {"default", "prefixed"},
       sh \in {"ok"}, o \in {"before", "after"}}
-  \cup {[base |-> Versions, sid |-> "1", ns |-> n, shape |-> sh, order |-> o] :
+  \cup {[base |-> Versions, sid |-> "1", ns |-> n, shape |-> sh, order |-> o, extra |-> "none"] :
       n \in {"default", "prefixed"}, sh \in HelloShapes \ {"ok"}, o \in {"before", "after"}}
+  (* capabilities that look like a base-protocol capability and are none (the protocol's XML namespace, its YANG  *)
+  (* module, other version numbers, the same words under :capability:), next to every subset of the real ones      *)
+  \cup {[base |-> b, sid |-> "1", ns |-> n, shape |-> "ok", order |-> "before", extra |-> x] :
+      b \in SUBSET Versions, n \in {"default", "prefixed"}, x \in Lookalikes}
 
 (* C13: every subset of the information-preserving rewrites *)
 Rewrites == {"pfx", "ws", "pad", "cmt", "attr", "decl", "empt"}
@@ -30,9 +35,11 @@ SetSeq(S) == IF S = {} THEN <<>> ELSE LET x == CHOOSE y \in S : TRUE IN <<x>> \o
 C13Cases == {SetSeq(s) : s \in SUBSET Rewrites}
 
 (* C10: every text-valued parameter x every string of up to K1 character classes *)
-Params == {"persist", "persist-id", "cancel-persist-id", "log", "log-after-failed-write", "instance", "xpath", "xpath-get", "url-edit", "url-delete",
+Params == {"persist", "persist-id", "cancel-persist-id", "log", "log-after-failed-write", "instance", "xpath", "xpath-get", "url-edit", "url-delete", "url-host",
            "text-config", "json-config", "set-config", "subtree-filter", "edit-fragment", "copy-fragment", "edit-opaque", "load-opaque"}
-Classes == {"plain", "lt", "gt", "amp", "quot", "apos", "delim", "nonascii", "space"}
+Classes == {"plain", "lt", "gt", "amp", "quot", "apos", "delim", "nonascii", "space",
+            (* values a "normaliser" would rewrite *)
+            "dotseg", "pctenc", "upcase", "bslash", "tab"}
 C10Cases == {[param |-> p, classes |-> c] : p \in Params, c \in SeqsUpTo(Classes, K1)}
 
 (* C14: mutation scripts over the message templates: operator, one or two positions (eighths of the message) *)
@@ -50,7 +57,7 @@ Out ==
     [] What = "c10" -> ToJson([cases |-> C10Cases])
     [] What = "c13" -> ToJson([cases |-> C13Cases])
     [] What = "c08" -> ToJson([cases |-> C08Cases])
-    [] What = "c09" -> ToJson([contents |-> C09Contents])
+    [] What = "c09" -> ToJson([contents |-> C09Contents, incomplete |-> IncompleteContents])
     [] What = "c12" -> ToJson([cases |-> C12Cases])
 ASSUME PrintT(<<"GEN", Out>>)
 VARIABLE dummy
